@@ -100,7 +100,6 @@ def run(c):
 
     c.parallel([builds, models])
     normal, asan = box["bins"]
-    sem = threading.Semaphore(NPARTS)      # <= 6 trace JVMs at a time; the ASan replays (no JVM) run beside them
 
     def replay_all(seqs, seed, tag, with_asan, nparts):
         """Replay `seqs` (split round robin into nparts files = processes = trace files) with matrices
@@ -123,11 +122,10 @@ def run(c):
 
         def normal_part(part):
             k, p, jd, n = part
-            with sem:
-                t = c.record(normal, [p, jd], out=c.path("capi-%s-%d.ndjson" % (tag, k)), timeout=1200,
-                             env={"VERIF_SEED": seed}, sig={"stage": "replay", "clause": "crash"})
-                return c.tlc_trace("C20Trace", t, label="%s part %d (%d sequences, seed %d)" % (tag, k, n, seed),
-                                   timeout=1500, heap="6g")
+            t = c.record(normal, [p, jd], out=c.path("capi-%s-%d.ndjson" % (tag, k)), timeout=1200,
+                         env={"VERIF_SEED": seed}, sig={"stage": "replay", "clause": "crash"})
+            return c.tlc_trace("C20Trace", t, label="%s part %d (%d sequences, seed %d)" % (tag, k, n, seed),
+                               timeout=1500, heap="6g")
 
         def asan_part(part):
             k, p, jd, n = part
@@ -138,11 +136,13 @@ def run(c):
             c.log("ASan replay %s part %d (%d sequences): rc=%s" % (tag, k, n, rc))
             return (k, n, rc, err, out)
 
-        thunks = [(lambda q=q: normal_part(q)) for q in parts]
-        if with_asan:
-            thunks += [(lambda q=q: asan_part(q)) for q in parts]
-        results = c.parallel(thunks, max_workers=2 * NPARTS + 2)
-        traces, asans = results[:len(parts)], results[len(parts):]
+        # two pools: <= 6 replay+trace-JVM pipelines and, beside them, <= 6 ASan replays (no JVM)
+        def run_normals():
+            return c.parallel([(lambda q=q: normal_part(q)) for q in parts], max_workers=NPARTS)
+
+        def run_asans():
+            return c.parallel([(lambda q=q: asan_part(q)) for q in parts], max_workers=NPARTS) if with_asan else []
+        traces, asans = c.parallel([run_normals, run_asans])
 
         # ---- judge the traces
         begins = ends = creates = 0
